@@ -65,6 +65,12 @@ def machines():
         ("map-selector", {"StartAt": "M", "States": {"M": {"Type": "Map", "ItemsPath": "$.items", "MaxConcurrency": 1, "End": True,
                                                          "ItemSelector": {"item.$": "$$.Map.Item.Value", "idx.$": "$$.Map.Item.Index", "n.$": "$.n"},
                                                          "ItemProcessor": {"StartAt": "W", "States": {"W": task("id")}}}}}),
+        # ItemSelector is evaluated against the Map state's EFFECTIVE input (after InputPath), not its raw input
+        ("map-inputpath-selector", {"StartAt": "W", "States": {
+            "W": {"Type": "Pass", "Parameters": {"inner": {"items.$": "$.items", "tag.$": "$.s"}, "tag": "outer"}, "Next": "M"},
+            "M": {"Type": "Map", "InputPath": "$.inner", "ItemsPath": "$.items", "End": True,
+                  "ItemSelector": {"item.$": "$$.Map.Item.Value", "tag.$": "$.tag"},
+                  "ItemProcessor": {"StartAt": "V", "States": {"V": task("id")}}}}}),
         ("nested", {"StartAt": "P", "States": {"P": {"Type": "Parallel", "End": True, "Branches": [
             {"StartAt": "M", "States": {"M": {"Type": "Map", "ItemsPath": "$.items", "End": True,
                                               "ItemProcessor": {"StartAt": "W", "States": {"W": task("wrap")}}}}},
